@@ -28,7 +28,7 @@ CHECKS = {
         parts=[dict(harness="chk_C18", variant="omp", src="checks/chk_C18.cpp",
                     runs=dict(quick=8800, thorough=200000), wall_cap=dict(quick=170, thorough=2700))],
         rule=("one case = one generated plan: scenario (forward / back projection, objective function, lazy geometry tables, "
-              "shared matrix cache, normalisation, single-scatter simulation, list-mode objective function, Array reductions), geometry, matrix settings, thread count 2..16 and a seeded schedule "
+              "shared matrix cache, normalisation, single-scatter simulation, list-mode objective function, Array reductions, back projection with another thread count than at set_up), geometry, matrix settings, thread count 2..16 and a seeded schedule "
               "(PCT(d<=3) / random walk / sync-only / round-robin) executed by the simulator's own OpenMP runtime with every "
               "instrumented memory access a yield point; compared with the same plan on one thread.  Non-trivial = at least one "
               "context switch inside a parallel region; distinct = distinct (scenario, decision-trace hash)."),
